@@ -310,6 +310,33 @@ class SrcNC(Src):
         return True
 
 
+class SrcGA:
+    """proxy around a Src: only __aiter__/__anext__ are defined on the class, everything else -- aclose included --
+    is provided dynamically through __getattr__ (an instrumentation wrapper, a remote handle)"""
+
+    def __init__(self, ctx, idx, items, suspend=False):
+        self.__dict__["_inner"] = Src(ctx, idx, items, suspend=suspend)
+
+    def __aiter__(self):
+        return self
+
+    def __anext__(self):
+        return self._inner.__anext__()
+
+    def __getattr__(self, name):
+        return getattr(self.__dict__["_inner"], name)
+
+    def __setattr__(self, name, value):
+        setattr(self.__dict__["_inner"], name, value)
+
+
+def src_class(acl, i, items, nsrc):
+    """which flavour of class-based source: a function of the case only, so that replays are exact"""
+    if not acl:
+        return SrcNC
+    return SrcGA if (len(items) + i + nsrc) % 4 == 3 else Src
+
+
 class SSrc:
     """Synchronous twin for the CPython counterpart."""
 
@@ -372,6 +399,9 @@ def mkfn(ctx, idx, spec, asynchronous=True, suspend=False, flavour=None):
         class _CallObj:
             def __call__(self, *args):
                 return af(*args)
+
+            def __len__(self):         # a callable container that happens to be empty: falsy, still a callable
+                return 0
         return _CallObj()
     if asynchronous:
         async def f(*args):
@@ -742,13 +772,28 @@ class Case:
         return {"tool": self.name, "params": repr(self.params), "srcs": repr(self.srcs), "plan": repr(self.plan), "acl": self.acl}
 
 
-def plan_exc(kind):
+# the injected user exception also derives from a builtin exception type, chosen by the fault position: library
+# code that handles TypeError / AttributeError / LookupError ... for its own purposes must not catch the user's
+_INJ_MIX = [None, TypeError, AttributeError, KeyError, ValueError, RuntimeError, LookupError, AssertionError, IndexError, OSError]
+_INJ_CLASSES = {}
+
+
+def inj_class(k):
+    base = _INJ_MIX[k % len(_INJ_MIX)]
+    if base is None:
+        return Inj
+    if base not in _INJ_CLASSES:
+        _INJ_CLASSES[base] = type("Inj" + base.__name__, (Inj, base), {"__init__": Inj.__init__})
+    return _INJ_CLASSES[base]
+
+
+def plan_exc(kind, k=0):
     if kind is None:
         return None
     if kind[0] == "GenExit":
         return CloseNow()
     if kind[0] == "inj":
-        return InjBase(kind[1]) if kind[2] else Inj(kind[1])
+        return InjBase(kind[1]) if kind[2] else inj_class(k)(kind[1])
     raise ValueError(kind)
 
 
@@ -779,13 +824,13 @@ def run_impl(case, suspend=False, cancel_at=None, cancel_id=9, reply=False):
 def _run_impl(case, suspend=False, cancel_at=None, cancel_id=9, reply=False):
     """Run the asyncstdlib tool on instrumented class-based sources. Returns dict(outcome, log, states, uses, srcs)."""
     plan = case.plan
-    ctx = Ctx((plan[0], plan_exc(plan[1])) if plan else None)
+    ctx = Ctx((plan[0], plan_exc(plan[1], plan[0])) if plan else None)
     t = case.tool
     if t.kind == "script":
         srcs = [list(case.srcs[0])]
         script_items = srcs[0]
     else:
-        srcs = [(Src if acl else SrcNC)(ctx, i, items, suspend=suspend) for i, (items, acl) in enumerate(builtins.zip(case.srcs, case.acl))]
+        srcs = [src_class(acl, i, items, len(case.srcs))(ctx, i, items, suspend=suspend) for i, (items, acl) in enumerate(builtins.zip(case.srcs, case.acl))]
     obj = t.impl(ctx, srcs, suspend=suspend)
     if t.kind == "agg":
         coro = run_agg(obj)
@@ -803,7 +848,7 @@ def _run_impl(case, suspend=False, cancel_at=None, cancel_id=9, reply=False):
 def run_std(case, steps=None):
     """Run the CPython counterpart on synchronous twins. steps=None: to exhaustion; else advance `steps` times."""
     plan = case.plan
-    ctx = Ctx((plan[0], plan_exc(plan[1])) if plan else None)
+    ctx = Ctx((plan[0], plan_exc(plan[1], plan[0])) if plan else None)
     t = case.tool
     if t.std is None:
         return None
@@ -901,3 +946,29 @@ def coq_std_file(cases_text):
 
 def coq_file(cases_text):
     return COQ_HEADER + "Definition cases : list case := [\n" + ";\n".join(cases_text) + "\n].\nEval vm_compute in (failing cases).\n"
+
+
+def library_parameter_names():
+    """every parameter name used by any function of the library (harvested from the current source) plus a few
+    classics: a keyword argument of one of these names, meant for a *user* callable that the library forwards
+    **kwargs to, must reach that callable like any other keyword"""
+    import ast as _ast
+    import glob as _glob
+    names = {"self", "cls", "func", "function", "callback", "args", "kwargs", "kwds", "key", "instance", "fn", "exit", "cm"}
+    import os as _os
+    os = _os
+    root = os.path.dirname(a.__file__)
+    for f in sorted(_glob.glob(os.path.join(root, "*.py"))):
+        try:
+            tree = _ast.parse(open(f).read())
+        except SyntaxError:
+            continue
+        for n in _ast.walk(tree):
+            if isinstance(n, (_ast.FunctionDef, _ast.AsyncFunctionDef)):
+                for x in n.args.posonlyargs + n.args.args + n.args.kwonlyargs:
+                    names.add(x.arg)
+                if n.args.vararg:
+                    names.add(n.args.vararg.arg)
+                if n.args.kwarg:
+                    names.add(n.args.kwarg.arg)
+    return sorted(n for n in names if n.isidentifier())
